@@ -29,6 +29,7 @@ func runC16(w *core.World, r *core.Report) {
 	r.Rule("R3", "opcode written = OpcodeIndex[mnemonic of the line], once per line")
 	r.Rule("R4", "integer encoder never right-trims the big-endian buffer")
 	r.Rule("R6", "each source line is assembled in a buffer allocated for it (no pooled or package-level buffer); vm.NewLine appends its string arguments unmodified")
+	r.Rule("R10", "every batch menu line the assembler accepts reaches the menu processor")
 	r.Rule("R9", "the source text reaches the parser as written (no rewriting of the text before lexing)")
 	r.Rule("R8", "numbers written in the source are not narrowed without a range check anywhere in the assembler")
 	r.Rule("R7", "lexer: every name the VM gives a meaning (navigation targets, wildcard, catch node) is read as one symbol token")
@@ -100,7 +101,30 @@ func runC16(w *core.World, r *core.Report) {
 	// ---- R3 -----------------------------------------------------------------------------------
 	if ps := anchor(w, r, "asm", "Parse"); ps != nil {
 		okIdx := false
-		for _, c := range core.Calls(ps) {
+		// Parse and the functions of the package it hands a line to (the per-line body may be a helper)
+		scope := []*ssa.Function{ps}
+		for d := 0; d < 2; d++ {
+			for _, f := range append([]*ssa.Function{}, scope...) {
+				for _, c := range core.Calls(f) {
+					if g := core.StaticCallee(c); g != nil && core.PkgOf(g) == "asm" && len(g.Blocks) > 0 {
+						dup := false
+						for _, x := range scope {
+							if x == g {
+								dup = true
+							}
+						}
+						if !dup {
+							scope = append(scope, g)
+						}
+					}
+				}
+			}
+		}
+		var lineCalls []ssa.CallInstruction
+		for _, f := range scope {
+			lineCalls = append(lineCalls, core.Calls(f)...)
+		}
+		for _, c := range lineCalls {
 			g := core.StaticCallee(c)
 			wop := asmWriter(w, "vm.Opcode")
 			if g == nil || wop == nil || core.PkgOf(g) != "asm" || len(callsToSet(g, map[*ssa.Function]bool{wop: true})) == 0 {
@@ -145,6 +169,7 @@ func runC16(w *core.World, r *core.Report) {
 	// ---- R6 -----------------------------------------------------------------------------------
 	checkReservedNamesAreOneToken(w, r, "R7")
 	checkSourceReachesParserUnmodified(w, r, "R9")
+	checkMenuAddReachesProcessor(w, r, "R10")
 	{
 		// the number path of the assembler: what asm.Parse reaches in the package, and the grammar's
 		// capture methods (called by the parser library through reflection); only conversions of
